@@ -44,6 +44,7 @@ type GroupCfg struct {
 	Overrides   []Override
 	T0          int64
 	Rate        int64 // ns per tick; 0 = 1000
+	ClockPerRead bool // the clock advances by a fixed step per read instead of per tick (what the call observes does not depend on how much work it did)
 	Entropy     uint64
 	TickBudget  uint64
 	DepthBudget int
@@ -78,6 +79,7 @@ type Group struct {
 	MaxFrame   uint64 // largest number of loop iterations executed by a single function activation
 	MaxFrameFn int
 	ClockReads int
+	ClockHash  uint64 // rolling hash of every clock value handed to the call
 	RandDraws  int
 	NTasks     int // goroutines of this call, the caller included
 	ChildPanic any // first panic raised in a goroutine started by the call (process-fatal in real Go)
@@ -164,6 +166,7 @@ func (d Deadlock) Error() string { return "simrt: deadlock: " + d.Msg }
 
 var (
 	NoFaultFn []bool // indexed by function id: no tick-fault is injected while such a function is the innermost activation
+	NoEntryFault []bool // indexed by function id: the function's first statement is a defer; its entry tick is no fault point
 	FuncNames []string
 	SiteNames []string
 	TickNames []string
@@ -367,7 +370,9 @@ func (g *Group) tick(t *Task, code uint64, id int, isFn bool) {
 				fn = t.frames[n-1].fn
 			}
 		}
-		if !(fn >= 0 && fn < len(NoFaultFn) && NoFaultFn[fn]) {
+		if isFn && fn >= 0 && fn < len(NoEntryFault) && NoEntryFault[fn] {
+			// the rewrite puts the entry tick before the function's leading defer statement; real code cannot fail there
+		} else if !(fn >= 0 && fn < len(NoFaultFn) && NoFaultFn[fn]) {
 			g.faultFired = true
 			panic(InjectedPanic{Tick: g.Ticks})
 		}
@@ -778,6 +783,9 @@ func (g *Group) nowNs() int64 {
 	if rate <= 0 {
 		rate = 1000
 	}
+	if g.cfg.ClockPerRead {
+		return g.cfg.T0 + int64(g.ClockReads)*1_000_003 + g.clockExtra
+	}
 	return g.cfg.T0 + int64(g.Ticks)*rate + g.clockExtra
 }
 
@@ -788,6 +796,7 @@ func Now() time.Time {
 	}
 	t.G.ClockReads++
 	ns := t.G.nowNs()
+	t.G.ClockHash = (t.G.ClockHash ^ uint64(ns)) * 0x100000001b3
 	t.G.ev(4<<40, uint64(ns))
 	return time.Unix(0, ns)
 }
